@@ -380,7 +380,7 @@ def _run_impl(P: _Patched, sc: dict):
                       "given": bytes(dev.given), "dropped": bytes(dev.dropped), "buf": buf,
                       "lost_dgrams": list(dev.lost_dgrams), "fit_limit": min(mn, mx),
                       "written": list(dev.written), "flag": getattr(tr, "_is_open", None),
-                      "clk0": clk0, "clk1": dev.ticks, "slice": slice0})
+                      "clk0": clk0, "clk1": dev.ticks, "slice": slice0, "io": list(dev.io)})
         if exc == "Budget":
             break
     return lines, outs, trace
@@ -430,6 +430,10 @@ def _oracle(kind: str, trace) -> Optional[tuple]:
                         return ("failed-open-reported-success", i, planned)
                     if exc not in ("QMI_TimeoutException", "OSError"):
                         return ("failed-open-wrong-exception", i, f"{planned}: {exc}")
+                    io = ev.get("io", [])
+                    if io.count("mk") != io.count("cl"):
+                        return ("failed-open-leaves-socket-open", i,
+                                f"{planned}: device calls {','.join(io)} (created {io.count('mk')}, closed {io.count('cl')})")
                 if ev["buf"] == b"":
                     pending.clear()          # dropping the leftover of the previous session is a discard
         elif op == "close":
